@@ -229,7 +229,7 @@ def plan(tier, seed):
             'required_classes': ['names:macro', 'names:environment', 'soup', 'doc',
                                  'opt:math_mode=remove', 'opt:fill_text=20',
                                  'opt:keep_comments=True', 'optvalues', 'history', 'two-names', 'input-files',
-                                 'exported-formatters']}
+                                 'exported-formatters', 'deep-nesting']}
 
 
 def convert(src, opts, res, case):
@@ -455,6 +455,22 @@ def run_formatters(res):
     res.label('exported-formatters')
 
 
+DEEP = [('{', '}'), ('\\textbf{', '}'), ('\\sqrt{', '}'), ('\\frac{a}{', '}'), ('$\\text{', '}$'),
+        ('\\begin{itemize}\\item ', '\\end{itemize}'), ('\\emph{\\textit{', '}}'), ('{\\hat{', '}}')]
+
+
+def run_deep(res):
+    """deep nesting: the work (token reads + nodes rendered) stays within the budget that is linear
+    in the input, under every option pair"""
+    for o, c in DEEP:
+        for d in (10, 22):
+            src = 'x ' + o * d + 'ab' + c * d + ' y'
+            for opts in pairwise_opts():
+                out = convert(src, opts, res, {'kind': 'src', 'src': src, 'opts': opts})
+                res.nontriv((src, repr(sorted(opts.items()))))
+    res.label('deep-nesting')
+
+
 def run_shard(shard, res):
     kind = shard[0]
     if kind == 'inputs':
@@ -462,6 +478,7 @@ def run_shard(shard, res):
         return
     if kind == 'formatters':
         run_formatters(res)
+        run_deep(res)
         return
     if kind == 'optvalues':
         k = shard[1]
